@@ -49,6 +49,29 @@ def run(ctx: Ctx):
     for g in gens:
         ctx.cur("C16-R1")
         locks = lock_fields(model, g)
+        # everything the lock attribute can be bound to is a lock: the class-level default (what
+        # an instance sees whose subclass does not run __init__) and every store in a method
+        LOCK_CTORS = ("threading.Lock", "threading.RLock", "Lock", "RLock")
+        for lk in locks:
+            cons_l = f"{g.name}.{lk}:is-a-lock"
+            ctx.inst(cons_l)
+            binds = []
+            for c in model.mro(g):
+                if lk in c.class_assigns:
+                    binds.append((c.class_assigns[lk], c.loc(c.class_assigns[lk])))
+                for h in c.all_funcs:
+                    for n in A.walk_no_nested(h.node):
+                        if isinstance(n, (ast.Assign, ast.AnnAssign)) and getattr(n, "value", None) is not None \
+                                and any(isinstance(t, ast.Attribute) and t.attr == lk for t in A.store_targets(n)):
+                            binds.append((n.value, h.loc(n)))
+            for v, where in binds:
+                if not (isinstance(v, ast.Call) and A.call_name(v) in LOCK_CTORS):
+                    ctx.fail(cons_l, where, f"`{lk}` of {g.name} is bound to `{ast.unparse(v)[:50]}`, which is "
+                             f"not a lock: `with self.{lk}` excludes nobody for an instance that sees "
+                             f"this binding (a persistence subclass that does not call __init__ gets "
+                             f"the class-level default) - two threads draw the same identifier",
+                             expected="threading.Lock() / threading.RLock() in every binding",
+                             observed=ast.unparse(v)[:50])
         sites = [s for s in store_sites(model, SEQ)
                  if s.func.cls is g and s.func.name != "__init__"]
         foreign = [s for s in store_sites(model, SEQ)
